@@ -8,6 +8,7 @@ replace github.com/BurntSushi/toml => github.com/drebelsky/toml v0.0.2
 
 require (
 	github.com/anishathalye/porcupine v1.3.0
+	github.com/creack/pty v1.1.18
 	github.com/sirupsen/logrus v1.8.3
 	golang.org/x/crypto v0.11.1-0.20230711161743-2e82bdd1719d
 	hop.computer/hop v0.0.0
@@ -17,7 +18,6 @@ require (
 	github.com/AstromechZA/etcpwdparse v0.0.0-20170319193008-f0e5f0779716 // indirect
 	github.com/BurntSushi/toml v1.2.0 // indirect
 	github.com/cloudflare/circl v1.6.1 // indirect
-	github.com/creack/pty v1.1.18 // indirect
 	github.com/google/go-cmp v0.5.9 // indirect
 	github.com/muesli/cancelreader v0.2.2 // indirect
 	github.com/pkg/errors v0.9.1 // indirect
